@@ -138,6 +138,9 @@ func (c *Ctx) InterCutCh(F *ssa.Function, site ssa.Instruction, isRoot func(*ssa
 	}
 	for _, ch := range chains {
 		pred := predFor(ch)
+		if pred == nil {
+			continue // the obligation does not apply to this chain
+		}
 		cut := false
 		var witness []string
 		for k := len(ch) - 1; k >= 0; k-- {
